@@ -490,7 +490,7 @@ func (p *Proc) Since(i int) []Event {
 // index, or until the timeout or the death of the process (index -1).
 func (p *Proc) Wait(from int, timeout time.Duration, pred func(Event) bool) (int, Event) {
 	deadline := time.Now().Add(timeout)
-	timer := time.AfterFunc(timeout, func() {
+	timer := time.AfterFunc(timeout+5*time.Millisecond, func() {
 		p.mu.Lock()
 		p.cond.Broadcast()
 		p.mu.Unlock()
